@@ -1163,7 +1163,14 @@ def np_unique(ex, v):
         items = v.concrete_items()
     else:
         raise Unsupported("numpy.unique of an array of symbolic shape")
-    items = ops.dedupe(ex, items)
+    def _plain_well(x):
+        if isinstance(x, WellV) and not (isinstance(x.r, int) and isinstance(x.c, int)):
+            r, c = (z3.simplify(t) if z3.is_expr(t) else t for t in (x.r, x.c))
+            if all(isinstance(t, int) or z3.is_int_value(t) for t in (r, c)):
+                return WellV(*(t if isinstance(t, int) else t.as_long() for t in (r, c)))
+        return x
+
+    items = ops.dedupe(ex, [_plain_well(x) for x in items])
     if all(isinstance(x, WellV) and isinstance(x.r, int) and isinstance(x.c, int) for x in items):
         items.sort(key=lambda w: "ABCDEFGHIJKLMNOPQRSTUVWXYZ"[w.r] + f"{w.c:02d}")
     elif all(isinstance(x, (int, str)) and not isinstance(x, bool) for x in items):
